@@ -81,10 +81,9 @@ func (r *Route) match(detectionPath, path string, params *[maxParams]string) boo
 
 	// Does this route have parameters?
 	if len(r.Params) > 0 {
-		// Match params using precomputed routeParser
-		if r.routeParser.getMatch(detectionPath, path, params, r.use) {
-			return true
-		}
+		// Match params using precomputed routeParser; a parameterised route matches
+		// only through its parser, never through the literal comparison below
+		return r.routeParser.getMatch(detectionPath, path, params, r.use)
 	}
 
 	// Middleware route?
